@@ -34,7 +34,7 @@ fn run_opt(d: &[u8]) -> String {
 }
 
 fn run_ref(d: &[u8]) -> String {
-    let mut tape = BinaryTape::default();
+    let mut tape = BinaryTape::new();
     match BinaryTapeParser.parse_slice_into_tape_unoptimized(d, &mut tape) {
         Ok(()) => show::bin_tape(tape.tokens()),
         Err(e) => err_str(&e).to_string(),
